@@ -129,10 +129,28 @@ def check_pixel_kernels(ctx, report, status, ks, rng, n):
             disp, flag = flagged_map(rng)
             rows, cols = len(flag), len(flag[0])
             d, f = np_maps(disp, flag)
-            od, ov = real_fn(d, f)
             ed = pyloops.Arr([[v for v in r] for r in disp], (rows, cols))
             ef = pyloops.Arr([list(r) for r in flag], (rows, cols))
             report.count("kernel_" + meth + "_calls")
+            try:
+                od, ov = real_fn(d, f)
+            except Exception as exc:  # pylint: disable=broad-except
+                # the compiled kernel raised (e.g. numpy's argmax of an empty mask): the translated function must then be
+                # undefined (`Res.outOfBounds`) at some pixel of this map — otherwise the translator misreads the source
+                undefined = False
+                for r in range(rows):
+                    for c in range(cols):
+                        try:
+                            undefined = undefined or pyloops_ext.evaluate_at(k, [ed, ef], r, c)[0] != "ok"
+                        except Exception:  # pylint: disable=broad-except
+                            undefined = True
+                report.count("kernel_" + meth + "_raised")
+                if not undefined:
+                    problems += 1
+                    if problems <= 3:
+                        status.problem("translator", f"the real {meth} raised {type(exc).__name__} on disp={disp} valid={flag} but its "
+                                       "translation is defined at every pixel", str(exc)[:200])
+                continue
             for r in range(rows):
                 for c in range(cols):
                     real = [canon(od[r, c]), int(ov[r, c])]
